@@ -84,8 +84,9 @@ def run(ctx):
     extra = {}
     # multi-statement requests: "partner" = every instance before and after a harmless statement, "full" = also
     # all pairs of requirement signatures.  quick: the model-checking run of family A has single statements only
-    # (pairs are model checked in the thorough tier); the generated matrix always has the pairs.
-    mcA, pmA, pmB = ctx.pick(("none", "partner", "none"), ("full", "full", "partner"))
+    # (pairs are model checked in the thorough tier); the generated matrix always has the partner requests AND all pairs
+    # of requirement signatures (a WRITE statement before a READ statement on one database, ...).
+    mcA, pmA, pmB = ctx.pick(("none", "full", "none"), ("full", "full", "partner"))
     # development aid: C16_STAGES=mc,authz,http,listing,cache,raft runs a subset (default: everything)
     stages = set((os.environ.get("C16_STAGES") or "mc,authz,http,listing,cache,raft").split(","))
 
